@@ -4,7 +4,7 @@ import casadi as ca
 import mpmath as mp
 import z3
 
-from ..harness import Harness, Claim, HarnessError
+from ..harness import Harness, Claim, HarnessError, StructureChanged
 from ..val import Val
 from .. import val as V
 from ..enc import Ctx
@@ -79,7 +79,7 @@ def exp_matrix(G, alg, xx, gname):
         with MatrixCut(("SE23",)) as mc:
             X = alg.elem(xx).exp(G)
         if len(mc.calls) != 1 or not ca.is_equal(X.param, mc.calls[0][2], 2):
-            raise HarnessError("exp does not end in a single from_Matrix call")
+            raise StructureChanged("exp does not end in a single from_Matrix call")
         return mc.calls[0][1]
     return alg.elem(xx).exp(G).to_Matrix()
 
@@ -105,7 +105,7 @@ class LogExp(Stubbed):
             with MatrixCut((rep,)) as mc:
                 X = alg.elem(x).exp(G)
             if len(mc.calls) != 1:
-                raise HarnessError("SE_2(3) exp: expected one SO3.from_Matrix call")
+                raise StructureChanged("SE_2(3) exp: expected one SO3.from_Matrix call")
             _, A, P = mc.calls[0]
             self.extra_sx = [P]
             return [X.log().param, A]
@@ -115,7 +115,7 @@ class LogExp(Stubbed):
             with MatrixCut(("Quat",)) as mc:
                 lg = X.log()
             if len(mc.calls) != 1:
-                raise HarnessError("SO3Dcm.log: expected one SO3Quat.from_Matrix call")
+                raise StructureChanged("SO3Dcm.log: expected one SO3Quat.from_Matrix call")
             _, A, P = mc.calls[0]
             self.extra_sx = [P]
             return [lg.param, A]
@@ -198,7 +198,7 @@ class LogPrincipal(Stubbed):
             with MatrixCut(("Quat",)) as mc:
                 lg = G.elem(x).log()
             if len(mc.calls) != 1:
-                raise HarnessError("SO3Dcm.log: expected one SO3Quat.from_Matrix call")
+                raise StructureChanged("SO3Dcm.log: expected one SO3Quat.from_Matrix call")
             _, A, P = mc.calls[0]
             self.extra_sx = [P]
             return [lg.param, A]
@@ -344,7 +344,7 @@ class EulerDelegation(Harness):
         ok = (len(rec) == 2 and rec[0][0] == "from_Euler" and ca.is_equal(rec[0][1].param, x, 2)
               and rec[1][0] == "log" and rec[1][1] is rec[0][2] and lg is sentinel)
         if not ok:
-            raise HarnessError("Euler log is not SO3Dcm.log(SO3Dcm.from_Euler(X))")
+            raise StructureChanged("Euler log is not SO3Dcm.log(SO3Dcm.from_Euler(X))")
         d = ca.SX.sym("d")
         return ca.Function("euler_log", [d], [d * 1])
 
